@@ -8,7 +8,9 @@
 (* Input   == [times, leads, locs : sequences in FILE order (repeats allowed),*)
 (*             lat, lon, elev    : sequences parallel to locs,               *)
 (*             hasObs : BOOLEAN,                                             *)
-(*             obs, fcst : [position triple <<i,j,k>> -> Rat value or NaN]]  *)
+(*             obs, fcst : [position triple <<i,j,k>> -> Rat value or NaN],  *)
+(*             extra : [field name -> [position triple -> value]]  (other    *)
+(*             columns / quantile / threshold fields; may be empty)]        *)
 (* Dataset == [inputs : Seq(Input), hasClim : BOOLEAN, clim : Input,         *)
 (*             climType : {"subtract","divide"}]                             *)
 (* Options == [given : SUBSET OptionNames, t, d, tod, o, l, lx : sets,       *)
@@ -76,7 +78,10 @@ IsSortedUnique(s) == \A i \in 1..(Len(s) - 1) : s[i] < s[i + 1]
 (* C02: values by coordinates (first occurrence of a repeated entry)        *)
 At(I, f, t, l, s) ==
   LET p == <<FirstPos(I.times, t), FirstPos(I.leads, l), FirstPos(I.locs, s)>>
-  IN  IF f = "obs" THEN I.obs[p] ELSE I.fcst[p]
+  IN  IF f = "obs" THEN I.obs[p] ELSE IF f = "fcst" THEN I.fcst[p] ELSE I.extra[f][p]
+\* the fields a request may name: observations, forecasts and the extra fields every input (and the climatology) stores
+ExtraNames(I) == IF "extra" \in DOMAIN I THEN DOMAIN I.extra ELSE {}
+FieldsOf(D) == {"obs", "fcst"} \cup {f \in ExtraNames(AllInputs(D)[1]) : \A j \in DOMAIN AllInputs(D) : f \in ExtraNames(AllInputs(D)[j])}
 
 FirstWithObs(D) == CHOOSE j \in DOMAIN AllInputs(D) :
                      AllInputs(D)[j].hasObs /\ \A k \in 1..(j - 1) : ~AllInputs(D)[k].hasObs
@@ -148,7 +153,7 @@ Context(D, O) ==
   LET T == CommonTimes(D, O)  L == CommonLeads(D, O)  S == CommonLocs(D, O)
       G == {<<t, l, s>> : t \in Elems(T), l \in Elems(L), s \in Elems(S)}
   IN  [T |-> T, L |-> L, S |-> S, G |-> G, n |-> NumInputs(D),
-       adj |-> [j \in 1..NumInputs(D), f \in {"obs", "fcst"}, c \in G |-> Adj(D, O, j, f, c[1], c[2], c[3])],
+       adj |-> [j \in 1..NumInputs(D), f \in FieldsOf(D), c \in G |-> Adj(D, O, j, f, c[1], c[2], c[3])],
        pos |-> [c \in G |-> ((IndexIn(T, c[1]) - 1) * Len(L) + (IndexIn(L, c[2]) - 1)) * Len(S) + IndexIn(S, c[3])],
        cells |-> [m \in 1..(Len(T) * Len(L) * Len(S)) |->
                     <<T[((m - 1) \div (Len(S) * Len(L))) + 1], L[(((m - 1) \div Len(S)) % Len(L)) + 1], S[((m - 1) % Len(S)) + 1]>>]]
